@@ -97,6 +97,7 @@ func runC09(w *World, r *Report) {
 	c09Lock(w, r)
 	c09Immutable(w, r)
 	c09ReportLock(w, r)
+	c09ReplaceOnlyAfterUninstall(w, r)
 }
 
 func c09PendingCheck(w *World, r *Report, ef *Effects) {
@@ -626,4 +627,129 @@ func c09ReportLock(w *World, r *Report) {
 		r.Fn(FuncName(fn))
 		r.Check(ok, "C09/REPORT-LOCK", FuncName(fn), w.InstrPos(lock), "failure handling and send happen between Lock and Unlock of the operation mutex", "the send is not covered by the operation mutex")
 	}
+}
+
+// c09ReplaceOnlyAfterUninstall: `upgrade --install` may ask the install it starts to reuse the name
+// (Replace) only when the release's last revision is uninstalled. With Replace the install re-reads the
+// history and picks its revision number right before the create, so the create-if-absent of a fixed
+// (name, revision) key no longer arbitrates between two overlapping installs.
+func c09ReplaceOnlyAfterUninstall(w *World, r *Report) {
+	r.Rule("C09/REPLACE-GUARD", "in pkg/cmd the install started by upgrade --install gets Replace=true only on the edge where the last revision's status equals uninstalled", 1)
+	outer := w.Fn("pkg/cmd", "newUpgradeCmd")
+	if outer == nil {
+		r.Unk("C09/REPLACE-GUARD", "anchor", "-", "pkg/cmd.newUpgradeCmd not found")
+		return
+	}
+	n := 0
+	for _, fn := range withAnon(outer) {
+		g := FullGraph(fn)
+		var guard []Edge
+		for _, b := range fn.Blocks {
+			for _, in := range b.Instrs {
+				bo, ok := in.(*ssa.BinOp)
+				if !ok || (bo.Op != token.EQL && bo.Op != token.NEQ) {
+					continue
+				}
+				c, okc := constString(bo.Y)
+				if !okc {
+					c, okc = constString(bo.X)
+				}
+				if !okc || c != "uninstalled" {
+					continue
+				}
+				for _, e := range condEdges(bo) {
+					if e.truth == (bo.Op == token.EQL) {
+						guard = append(guard, e.Edge)
+					}
+				}
+			}
+		}
+		// … or through a helper predicate that is true only where that comparison is
+		for _, c := range callInstrs(fn) {
+			h, _ := calleeOf(c.Common())
+			cv := c.Value()
+			if h == nil || cv == nil || !inHelm(h) || !impliesUninstalled(h) {
+				continue
+			}
+			for _, e := range condEdges(cv) {
+				if e.truth {
+					guard = append(guard, e.Edge)
+				}
+			}
+		}
+		for _, b := range fn.Blocks {
+			for _, in := range b.Instrs {
+				st, ok := in.(*ssa.Store)
+				if !ok {
+					continue
+				}
+				if _, t, f := fieldNameOf(st.Addr); t != "Install" || f != "Replace" {
+					continue
+				}
+				if v, isC := constBool(st.Val); isC && !v {
+					continue
+				}
+				n++
+				r.Fn(FuncName(fn))
+				ok2 := len(guard) > 0
+				if ok2 {
+					ex, _ := g.PathExists(entryPos(fn), posOf(st), Avoid{}.withEdges(guard...))
+					ok2 = !ex
+				}
+				r.Check(ok2, "C09/REPLACE-GUARD", FuncName(fn)+"/Install.Replace", w.InstrPos(st), "Replace is switched on only for a release whose last revision is uninstalled", "upgrade --install switches Replace on without the last revision being uninstalled: two overlapping upgrade --install runs both pick their revision at create time and both install")
+			}
+		}
+	}
+	if n == 0 {
+		r.OKTrivial("C09/REPLACE-GUARD", "none", "-", "upgrade --install never switches Replace on")
+	}
+}
+
+// impliesUninstalled: h returns a bool that is true only where a status was compared equal to "uninstalled".
+func impliesUninstalled(h *ssa.Function) bool {
+	if len(h.Blocks) == 0 || h.Signature.Results().Len() != 1 {
+		return false
+	}
+	isCmp := func(v ssa.Value) bool {
+		bo, ok := v.(*ssa.BinOp)
+		if !ok || bo.Op != token.EQL {
+			return false
+		}
+		c, okc := constString(bo.Y)
+		if !okc {
+			c, okc = constString(bo.X)
+		}
+		return okc && c == "uninstalled"
+	}
+	var okVal func(v ssa.Value, d int) bool
+	okVal = func(v ssa.Value, d int) bool {
+		if cb, isC := constBool(v); isC {
+			return !cb
+		}
+		if isCmp(v) {
+			return true
+		}
+		if phi, ok := v.(*ssa.Phi); ok && d < 3 {
+			for _, e := range phi.Edges {
+				if !okVal(e, d+1) {
+					return false
+				}
+			}
+			return true
+		}
+		return false
+	}
+	n := 0
+	for _, b := range h.Blocks {
+		if len(b.Instrs) == 0 {
+			continue
+		}
+		if ret, ok := b.Instrs[len(b.Instrs)-1].(*ssa.Return); ok {
+			n++
+			if !okVal(ret.Results[0], 0) {
+				return false
+			}
+		}
+	}
+	return n > 0
 }
